@@ -14,9 +14,9 @@ CLAIMS = {
    note="Does not decide tie-freedom of sort keys on real data, nor the cross-type order of JSON blocks returned by hcl; trusts go/types+go/cfg, the stated hclsyntax disjoint-range assumption for first-match returns, and that third-party callees are deterministic.",
    ref="DESIGN.md §2 E2, §3 C03"),
  "C01": dict(
-   technique="static analysis: guard-completeness of five panic families over every function (go/cfg dominance + path search, alias-aware access paths, Fourier-Motzkin bounds prover, inter-procedural preconditions and summaries)",
-   text="Structural necessary conditions of the no-panic clause of C01, decided for every function of the module: P1 every panicking cty.Value/cty.Type accessor is dominated by a kind guard (plus non-null and known guards for configuration-evaluated values); P2/P3 every index and slice expression is proved in bounds by a linear-arithmetic prover over dominating facts, loop facts, local definitions and stated parser/cursor axioms; P4 every single-value type assertion has a dominating type test or a re-checked pairing premise (walker/validator kind pairing, no typed nil); P5 every dereference of an optional reference is reached only through a non-nil-establishing edge on every CFG path. Unproved uses of parameters become preconditions discharged at all in-module call sites.",
-   note="Does not decide: termination (recursion measures, loop progress), integer overflow, panics inside hcl/cty beyond the modelled accessor contracts, stack depth, user hooks/validators. Assumes schema-owned cty values are known and non-null, schema collections hold no nil entries, parser ranges lie within the file, cursor within file (entry check).",
+   technique="static analysis: guard-completeness of five panic families over every function (go/cfg dominance + path search, alias-aware access paths, Fourier-Motzkin bounds prover, inter-procedural preconditions and summaries) + structural-descent termination analysis over the call graph's recursive components (lexicographic size-change argument with function summaries) and loop-progress proofs",
+   text="Structural necessary conditions of the no-panic clause of C01, decided for every function of the module: P1 every panicking cty.Value/cty.Type accessor is dominated by a kind guard (plus non-null and known guards for configuration-evaluated values); P2/P3 every index and slice expression is proved in bounds by a linear-arithmetic prover over dominating facts, loop facts, local definitions and stated parser/cursor axioms; P4 every single-value type assertion has a dominating type test or a re-checked pairing premise (walker/validator kind pairing, no typed nil); P5 every dereference of an optional reference is reached only through a non-nil-establishing edge on every CFG path. Unproved uses of parameters become preconditions discharged at all in-module call sites. Termination clause (E14): in each of the 43 recursive components of the module's call graph (static calls + interface dispatch to all implementers, refined by the constructed receiver type) the 371 recursive call sites are ordered lexicographically by (syntax tree, schema/type, data) — calls passing a strictly smaller syntax argument are removed, no remaining call may pass a possibly larger one, the remaining cycles must descend in (cty constructors, schema constructors), and so on; one-shot recursion guarded by a flag and the fresh empty-expression leaf are recognised; the two non-range loops advance by the size of a rune decoded from a provably non-empty slice; hcl-lang builds no syntax nodes other than the childless leaf.",
+   note="Does not decide: termination of third-party code and user hooks, termination on cyclic schemas/types (assumed finite trees), integer overflow, panics inside hcl/cty beyond the modelled accessor contracts, stack depth, user hooks/validators. Assumes schema-owned cty values are known and non-null, schema collections hold no nil entries, parser ranges lie within the file, cursor within file (entry check).",
    ref="DESIGN.md §2 E4, §3 C01"),
  "C04": dict(
    technique="static analysis: ownership/freshness classification of every write site (immutable < deep-fresh < fresh < shared) with parameter-symbolic summaries (writes-through, result-as-fresh-as-argument, per-field results) to a fixed point over the module; who-may-call rules for package- and decoder-level state",
